@@ -90,7 +90,7 @@ def record_decor_case(cid, c, mods, origin='tlc'):
     params = {o: True for o in c['o']}
     if c['gfsep'] != '-':
         # the value as the command line hands it over (`gf_separator:0` arrives as the integer 0)
-        params['gf_separator'] = mods['misc'].options_dict(['gf_separator:%s' % c['gfsep']])['gf_separator'] \
+        params['gf_separator'] = mods['misc'].options_dict(['gf_separator:%s' % ('' if c['gfsep'] == '~' else c['gfsep'])])['gf_separator'] \
             if 'misc' in mods else c['gfsep']
     ev = {'a': 'get_label', 'nd': {'lab': list(c['lab']), 'edge': list(c['edge']), 'head': c['head'],
                                    'split': c['split'], 'inner': 'T' if c['inner'] else 'F'},
